@@ -18,6 +18,8 @@ INVARIANT ThPrecisionRecall
 INVARIANT ThRegPerfect
 INVARIANT ThRegBounds
 INVARIANT ThMissingIgnored
+INVARIANT ThShiftInvariant
+INVARIANT ThScaleLaw
 INVARIANT ThLayout
 INVARIANT ThTablesDistinguish
 CONSTRAINT EmitCase
